@@ -7,6 +7,7 @@ cd /tmp/verif-matrix || exit 2
 # rsync keeps old mtimes: objects rebuilt in the copy after an edit in /verif would look newer than the edited source
 find /tmp/verif-matrix/build -mindepth 1 -delete 2>/dev/null
 export VERIF_REPO=/tmp/wt/matrix-repo
+export PXSIM_NO_SHRINK=1      # the verdict is what the sweep records; minimised replays are made by ordinary runs
 R=$VERIF_REPO
 OUT=${OUT:-/tmp/mut/final_sweep.tsv}
 : > $OUT
